@@ -583,7 +583,8 @@ def cvPreambleG (strip : List Char) (marker : Char) (t : List Char) : Option (Li
     | none => none
     | some t2 => some (takeLine t1, takeLine t2, (dropLine t2).getD [])
 
-def cvStripChars : List Char := [' ', '\t']
+/-- the characters `lstrip` removes before the comment test, as a sorted set (the order of the source's string is immaterial) -/
+def cvStripChars : List Char := ['\t', ' ']
 def cvCommentMarker : Char := '!'
 def cvPreamble (t : List Char) := cvPreambleG cvStripChars cvCommentMarker t
 end Model.C14
